@@ -104,6 +104,14 @@ def handle : Handler := fun j => do
     let judge : Option String := if p then some "panic"
       else if converged then none else some "file-created-during-cache-construction-never-noticed"
     pure (verdict converged judge (Json.bool true) ["created-during-construction"])
+  | "slowscan" =>
+    -- the watcher's update+scan and a query's update+scan are serialised by the cache mutex (the machine's steps
+    -- are atomic): a query that falls into a slow scan of the watcher runs after it, and its result stands
+    let converged ← getBool obs "converged"
+    let p ← getBool obs "panic"
+    let judge : Option String := if p then some "panic"
+      else if converged then none else some "cache-did-not-converge-after-a-query-during-a-slow-scan"
+    pure (verdict converged judge (Json.bool true) ["query-during-slow-scan"])
   | "history" =>
     let applied ← (← getArr j "applied").toList.mapM (·.getStr?)
     let start ← getBool j "dirAtStart"
